@@ -1,0 +1,96 @@
+//go:build verif
+
+package graph
+
+// Contracts for gocv (see /verif/DESIGN.md). Comment-only file.
+
+//@ package graph
+//@ import ocispec "github.com/opencontainers/image-spec/specs-go/v1"
+//@ import descriptor "oras.land/oras-go/v2/internal/descriptor"
+//@ import content "oras.land/oras-go/v2/content"
+//@
+//@ pure inPreds(m *Memory, s descriptor.Descriptor, p descriptor.Descriptor) bool = s in m.predecessors && p in m.predecessors[s]
+//@ pure inSuccs(m *Memory, p descriptor.Descriptor, s descriptor.Descriptor) bool = p in m.successors && s in m.successors[p]
+//@
+//@ pure graphRI(m *Memory) bool = m != nil && m.nodes != nil && m.predecessors != nil && m.successors != nil && m.predecessors != m.successors
+//@      && (forall p descriptor.Descriptor :: (p in m.successors) == (p in m.nodes))
+//@      && (forall p, s descriptor.Descriptor :: p in m.successors ==> (s in m.successors[p]) == inPreds(m, s, p))
+//@      && (forall s, p descriptor.Descriptor :: inPreds(m, s, p) ==> p in m.nodes)
+//@      && (forall s descriptor.Descriptor :: s in m.predecessors ==> len(m.predecessors[s]) > 0 && m.predecessors[s] != nil)
+//@      && (forall p descriptor.Descriptor :: p in m.successors ==> m.successors[p] != nil && alive(m.successors[p]))
+//@      && (forall s descriptor.Descriptor :: s in m.predecessors ==> alive(m.predecessors[s]))
+//@      && (forall p, s descriptor.Descriptor :: p in m.successors ==> (s in m.successors[p]) == succOf(p, s))
+//@      && (forall a, b descriptor.Descriptor :: a in m.predecessors && b in m.predecessors && a != b ==> m.predecessors[a] != m.predecessors[b])
+//@      && (forall a, b descriptor.Descriptor :: a in m.successors && b in m.successors && a != b ==> m.successors[a] != m.successors[b])
+//@      && (forall a, b descriptor.Descriptor :: a in m.predecessors && b in m.successors ==> m.predecessors[a] != m.successors[b])
+//@
+//@ func (*Memory).Exists
+//@   requires [ri] graphRI(m)
+//@   ensures [C07:exact] result == (K(node) in m.nodes)
+//@   modifies nothing
+//@
+//@ func (*Memory).Remove
+//@   requires [ri] graphRI(m)
+//@   let n = K(node)
+//@   let S = old(m.successors[K(node)])
+//@   loop 0 invariant [maps-kept] m.nodes == old(m.nodes) && m.successors == old(m.successors) && m.predecessors == old(m.predecessors)
+//@   loop 0 invariant [nodes-frame] forall k descriptor.Descriptor :: (k in m.nodes) == old(k in m.nodes) && (k in m.successors) == old(k in m.successors) && m.successors[k] == old(m.successors[k])
+//@   loop 0 invariant [succ-sets-frame] forall p, s descriptor.Descriptor :: p in m.successors ==> (s in m.successors[p]) == old(s in m.successors[p])
+//@   loop 0 invariant [pred-objects] forall s descriptor.Descriptor :: s in m.predecessors ==> old(s in m.predecessors) && m.predecessors[s] == old(m.predecessors[s])
+//@   loop 0 invariant [others-kept] forall s, p descriptor.Descriptor :: p != n ==> inPreds(m, s, p) == old(inPreds(m, s, p))
+//@   loop 0 invariant [visited-removed] forall s descriptor.Descriptor :: s in $visited ==> !inPreds(m, s, n)
+//@   loop 0 invariant [unvisited-kept] forall s descriptor.Descriptor :: !(s in $visited) ==> inPreds(m, s, n) == old(inPreds(m, s, n))
+//@   loop 0 invariant [visited-are-succs] forall s descriptor.Descriptor :: s in $visited ==> old(inSuccs(m, n, s))
+//@   loop 0 invariant [nonempty] forall s descriptor.Descriptor :: s in m.predecessors ==> len(m.predecessors[s]) > 0
+//@   ensures [C07,C09:ri] graphRI(m)
+//@   ensures [C07,C09:nodes] forall k descriptor.Descriptor :: (k in m.nodes) == (old(k in m.nodes) && k != n)
+//@   ensures [C07,C09:preds] forall s, p descriptor.Descriptor :: inPreds(m, s, p) == (old(inPreds(m, s, p)) && p != n)
+//@   ensures [C07:node-values] forall k descriptor.Descriptor :: k in m.nodes ==> m.nodes[k] == old(m.nodes[k])
+//@
+//@ func NewMemory
+//@   ensures [C07:ri] graphRI(result)
+//@   ensures [C07:empty] forall k descriptor.Descriptor :: !(k in result.nodes) && !(k in result.predecessors)
+//@
+//@ func (*Memory).index
+//@   requires [ri] graphRI(m)
+//@   let n = K(node)
+//@   loop 0 invariant [bounds] 0 <= $i && $i <= len(successors)
+//@   loop 0 invariant [maps-kept] m.nodes == old(m.nodes) && m.successors == old(m.successors) && m.predecessors == old(m.predecessors)
+//@   loop 0 invariant [nodes] forall k descriptor.Descriptor :: (k in m.nodes) == (old(k in m.nodes) || k == n)
+//@   loop 0 invariant [node-values] forall k descriptor.Descriptor :: k != n ==> m.nodes[k] == old(m.nodes[k])
+//@   loop 0 invariant [succ-dom] forall k descriptor.Descriptor :: (k in m.successors) == (old(k in m.successors) || k == n)
+//@   loop 0 invariant [succ-objects] m.successors[n] == successorSet && successorSet != nil && !old(alive(successorSet)) && (forall k descriptor.Descriptor :: k != n ==> m.successors[k] == old(m.successors[k]))
+//@   loop 0 invariant [succ-sets-frame] forall p, s descriptor.Descriptor :: p != n && p in m.successors ==> (s in m.successors[p]) == old(s in m.successors[p])
+//@   loop 0 invariant [new-set-prefix] forall i int :: 0 <= i && i < $i ==> K(successors[i]) in successorSet
+//@   loop 0 invariant [new-set-sound] forall s descriptor.Descriptor :: s in successorSet ==> succOf(n, s)
+//@   loop 0 invariant [preds-prefix] forall i int :: 0 <= i && i < $i ==> inPreds(m, K(successors[i]), n)
+//@   loop 0 invariant [preds-sound] forall s, p descriptor.Descriptor :: inPreds(m, s, p) ==> old(inPreds(m, s, p)) || (p == n && succOf(n, s))
+//@   loop 0 invariant [preds-mono] forall s, p descriptor.Descriptor :: old(inPreds(m, s, p)) ==> inPreds(m, s, p)
+//@   loop 0 invariant [pred-wf] forall s descriptor.Descriptor :: s in m.predecessors ==> len(m.predecessors[s]) > 0 && m.predecessors[s] != nil && m.predecessors[s] != successorSet && alive(m.predecessors[s])
+//@   loop 0 invariant [succ-wf] alive(successorSet) && (forall p descriptor.Descriptor :: p in m.successors ==> m.successors[p] != nil && alive(m.successors[p]))
+//@   loop 0 invariant [succ-sep] forall a, b descriptor.Descriptor :: a in m.successors && b in m.successors && a != b ==> m.successors[a] != m.successors[b]
+//@   loop 0 invariant [pred-sep] forall a, b descriptor.Descriptor :: a in m.predecessors && b in m.predecessors && a != b ==> m.predecessors[a] != m.predecessors[b]
+//@   loop 0 invariant [pred-succ-sep] forall a, b descriptor.Descriptor :: a in m.predecessors && b in m.successors ==> m.predecessors[a] != m.successors[b]
+//@   loop 0 invariant [successors-slice] forall i int :: 0 <= i && i < len(successors) ==> succOf(n, K(successors[i]))
+//@   loop 0 invariant [successors-complete] forall s descriptor.Descriptor :: succOf(n, s) ==> (exists i int :: 0 <= i && i < len(successors) && K(successors[i]) == s)
+//@   ensures [C07:ri] graphRI(m)
+//@   ensures [C07:nodes] result1 == nil ==> (forall k descriptor.Descriptor :: (k in m.nodes) == (old(k in m.nodes) || k == n))
+//@   ensures [C07:preds] result1 == nil ==> (forall s, p descriptor.Descriptor :: inPreds(m, s, p) == (old(inPreds(m, s, p)) || (p == n && succOf(n, s))))
+//@   ensures [C07:node-value] result1 == nil ==> m.nodes[n] == node
+//@   ensures [C07:error-unchanged] result1 != nil ==> (forall k descriptor.Descriptor :: (k in m.nodes) == old(k in m.nodes)) && (forall s, p descriptor.Descriptor :: inPreds(m, s, p) == old(inPreds(m, s, p)))
+//@
+//@ ghost predKey(i int) descriptor.Descriptor
+//@
+//@ func (*Memory).Predecessors
+//@   requires [ri] graphRI(m)
+//@   let key = K(node)
+//@   loop 0 invariant [keys] forall i int :: 0 <= i && i < len(res) ==> predKey(i) in $visited && res[i] == m.nodes[predKey(i)]
+//@   loop 0 invariant [distinct] forall i, j int :: 0 <= i && i < j && j < len(res) ==> predKey(i) != predKey(j)
+//@   loop 0 invariant [all-visited] forall k descriptor.Descriptor :: k in $visited ==> (exists i int :: 0 <= i && i < len(res) && predKey(i) == k)
+//@   loop 0 invariant [visited-members] forall k descriptor.Descriptor :: k in $visited ==> inPreds(m, key, k)
+//@   loop 0 backedge set predKey(len(res)) = k
+//@   ensures [C07:exact-members] forall i int :: 0 <= i && i < len(result0) ==> inPreds(m, key, predKey(i)) && result0[i] == m.nodes[predKey(i)]
+//@   ensures [C07:exact-once] forall i, j int :: 0 <= i && i < j && j < len(result0) ==> predKey(i) != predKey(j)
+//@   ensures [C07:exact-complete] forall k descriptor.Descriptor :: inPreds(m, key, k) ==> (exists i int :: 0 <= i && i < len(result0) && predKey(i) == k)
+//@   ensures [C07:no-error] result1 == nil
+//@   modifies ghost.predKey, elems[ocispec.Descriptor], alloc
